@@ -490,6 +490,32 @@ def programs(tier: str, seed: int = 0):
                     yield dict(id=f"{name}|atoms|p{slot}|{i1}-{i2}", text=text, template=name, slot=(slot, slot + 1), filler=f1 + "+" + f2,
                                ctx=_ctx_for(toks, slot, g1), pair=(filler_class(f1), filler_class(f2)),
                                singles_text=[glue(render(toks, slot, g1)), glue(render(toks, slot + 1, g2))])
+    # two gaps that are NOT next to each other, each with an own-line comment of its own wording (code that distributes comments
+    # over several children of one node - both branches of an `if`, value and body, ... - can mix them up)
+    for name, fid, toks in base_programs(tier):
+        if fid != "atoms" or len(toks) > 16:
+            continue
+        canon = glue(render(toks))
+        root = parse_cst(canon)
+        if has_error(root):
+            continue
+        canon_tokens = code_tokens(leaves(root))
+        for s1 in range(1, len(toks)):
+            for s2 in range(s1 + 2, len(toks)):
+                g1 = adapt_filler("\n# p\n", toks[s1])
+                g2 = adapt_filler("\n# q\n", toks[s2])
+                if g1 is None or g2 is None:
+                    continue
+                text = glue(render(toks, {s1: g1, s2: g2}))
+                if text in seen:
+                    continue
+                r2 = parse_cst(text)
+                if has_error(r2) or code_tokens(leaves(r2)) != canon_tokens:
+                    continue
+                seen.add(text)
+                yield dict(id=f"{name}|atoms|d{s1}-{s2}", text=text, template=name, slot=(s1, s2), filler="\n# p\n+\n# q\n",
+                           ctx=_ctx_for(toks, s1, g1), ctx2=_ctx_for(toks, s2, g2), pair=("comment-line-own", "comment-line-own"), distant=True,
+                           singles_text=[glue(render(toks, s1, g1.replace("# p", "# c"))), glue(render(toks, s2, g2.replace("# q", "# c")))])
     # comment wordings: the text inside a comment is the user's; only indentation and delimiter padding may be normalised (C03)
     for host, tpl in WORDING_HOSTS.items():
         for k, w in enumerate(COMMENT_WORDINGS):
@@ -590,6 +616,11 @@ def drift_class(f):
 
 
 def signature(prog, symptom: str) -> str:
+    if prog.get("distant"):
+        def one(c):
+            lca, prev, nxt = c if c else ("?", "?", "?")
+            return f"in={lca}|after={'expr' if prev in _EXPR_END else prev}|before={'expr' if nxt in _EXPR_START else nxt}"
+        return f"{symptom}|own-line comments in two gaps: {one(prog.get('ctx'))} and {one(prog.get('ctx2'))}"
     if prog.get("pair"):
         lca, prev, nxt = prog["ctx"] if prog.get("ctx") else ("?", "?", "?")
         prev = "expr" if prev in _EXPR_END else prev
